@@ -94,3 +94,18 @@ for dp, dn, fn in os.walk(root):
       spell[mod] = {k: {p_: ('pos' if c['pos'] >= c['kw'] else 'kw') for p_, c in v.items()} for k, v in m.items()}
 json.dump(spell, open(os.path.join(os.path.dirname(TABLE), 'canon_calls.json'), 'w'), indent=0, sort_keys=True)
 print('call spellings:', sum(len(v) for v in spell.values()))
+
+# attributes each reference class stores on its instances (self.X = ...), for attribute rename detection
+attrs = {}
+for dp, dn, fn in os.walk(root):
+  for f in sorted(fn):
+    if f.endswith('.py'):
+      p = os.path.join(dp, f)
+      mod = os.path.relpath(p, root)[:-3].replace(os.sep, '.')
+      if mod.endswith('__init__'):
+        mod = mod[:-len('.__init__')] if '.' in mod else '__init__'
+      tree = ast.parse(open(p).read())
+      from ginsa.normalize import class_attrs
+      attrs[mod] = class_attrs(tree)
+json.dump(attrs, open(os.path.join(os.path.dirname(TABLE), 'canon_attrs.json'), 'w'), indent=0, sort_keys=True)
+print('classes with attributes:', sum(len(v) for v in attrs.values()))
